@@ -782,10 +782,10 @@ theorem iterRecordingIds_spec (days : Nat → Nat → List Nat) (c : Cfg) (b : B
 
 theorem day_mem_prefixDays {s e t : Nat} (h1 : s ≤ t) (h2 : t ≤ e) : day t ∈ prefixDays s e := by
   unfold prefixDays day
-  have : ¬ e / 1440 < s / 1440 := by omega
+  have : ¬ e / 86400 < s / 86400 := by omega
   rw [if_neg this]
   simp only [List.mem_map, List.mem_range]
-  exact ⟨t / 1440 - s / 1440, by omega, by omega⟩
+  exact ⟨t / 86400 - s / 86400, by omega, by omega⟩
 
 theorem mem_prefixDays {s e d : Nat} (h : d ∈ prefixDays s e) : day s ≤ d ∧ d ≤ day e := by
   unfold prefixDays at h
